@@ -44,7 +44,12 @@ if mode == 'lists':
         snapA = (id(A), [id(r) for r in A], json.dumps(A)); snapB = None if B is None else (id(B), [id(r) for r in B], json.dumps(B))
         res = []; err = None
         try:
-            rbql.query_table(c['py'], A, res, [], B)
+            if c.get('sink') == 'csv':
+                # the same list sources, the output going to a CSV writer (which converts and joins the cells it is handed)
+                reg = None if B is None else rbql_engine.ListTableRegistry([rbql_engine.ListTableInfo('b', B, None), rbql_engine.ListTableInfo('B', B, None)])
+                rbql_engine.query(c['py'], rbql_engine.TableIterator(A), rbql_csv.CSVWriter(io.StringIO(), False, None, ',', c.get('policy', 'quoted')), [], reg)
+            else:
+                rbql.query_table(c['py'], A, res, [], B)
         except Exception as e:
             err = type(e).__name__
         mutated = (id(A), [id(r) for r in A], json.dumps(A)) != snapA or (B is not None and (id(B), [id(r) for r in B], json.dumps(B)) != snapB)
@@ -158,6 +163,40 @@ def impl(mode, arg):
         raise RuntimeError('C06 driver failed (%s): %s' % (mode, r.stderr.decode()[-500:]))
 
 
+JS_NESTED = r'''
+const path = require('path');
+const repo = process.env.VERIF_REPO || '/repo';
+const rbql = require(path.join(repo, 'rbql-js', 'rbql.js'));
+const rbql_csv = require(path.join(repo, 'rbql-js', 'rbql_csv.js'));
+const {Writable} = require('stream');
+(async () => {
+  const queries = ['select a1, a2', 'select *', 'select a2, a4, a3', 'select distinct a1, a3', 'select * order by a1', "update set a1 = a1 + '!'", 'select a1, b2 left join b on a1 == b1', 'select * join b on a1 == b1', 'select top 2 a4, a2', 'select * except a1'];
+  let out = [];
+  for (const q of queries) for (const pol of ['quoted', 'simple', 'quoted_rfc']) {
+    const A = [['apple', ['red', null], 3, [[null], 'x']], ['pear', [null], null, []], ['fig', [], 1, [null, [null, 2]]]];
+    const B = [['apple', [null, 'b1']], ['fig', ['b2', null]]];
+    const before = JSON.stringify([A, B]);
+    const ws = new Writable({write(c, e, cb) { cb(); }});
+    let err = null;
+    try {
+      await rbql.query(q, new rbql.TableIterator(A), new rbql_csv.CSVWriter(ws, false, 'utf-8', ',', pol), [], new rbql.SingleTableRegistry(B, null));
+    } catch (e) { err = String(e && e.message).slice(0, 80); }
+    const after = JSON.stringify([A, B]);
+    out.push({query: q + ' [' + pol + ']', mutated: before !== after, before: before, after: after, err: err});
+  }
+  console.log(JSON.stringify(out));
+})();
+'''
+
+
+def js_nested_csv():
+    r = subprocess.run([common.NODE, '-e', JS_NESTED], env=common.impl_env(), stdout=subprocess.PIPE, stderr=subprocess.PIPE, timeout=300)
+    try:
+        return json.loads(r.stdout.decode().strip().split('\n')[-1])
+    except (ValueError, IndexError):
+        raise RuntimeError('C06 js nested driver failed: ' + r.stderr.decode()[-400:])
+
+
 def gen_cases(seed, n):
     import corr_C01, corr_C02, corr_C03, corr_C04, corr_C05
     rnd = random.Random(seed * 60013 + 6)
@@ -179,6 +218,14 @@ def gen_cases(seed, n):
                         ('update set a2 = a2 + ["x"] where a1 == "apple"', False), ('select a1, SUM(b2) join b on a1 == b1 group by a1', True), ('select a1, b2 left join b on a1 == b1', True),
                         ('select a1, UNNEST(a2)', False), ('select top 2 a1, a2 order by a3 desc', False), ('select a1, ARRAY_AGG(b2), MAX(b2) join b on a1 == b1 group by a1', True)]:
         cases.append({'q': {'items': ['star'], 'raw_text': text}, 'A': NA, 'B': NB if use_b else None, 'py': text, 'raw': True})
+    # … and the same kind of sources with the output handed to a CSV writer: it normalises None / numbers / list cells of the records it receives
+    NC = [['apple', ['red', None], 3, [[None], 'x']], ['pear', [None], None, []], ['fig', [], 1, [None, [None, 2]]]]
+    NCB = [['apple', [None, 'b1']], ['fig', ['b2', None]]]
+    for text, use_b in [('select a1, a2', False), ('select *', False), ('select a2, a4, a3', False), ('select a1, a2 where a3 is not None', False), ('select distinct a1, a3', False),
+                        ('select * order by a1 desc', False), ('update set a1 = a1 + "!"', False), ('select a1, b2 left join b on a1 == b1', True), ('select * join b on a1 == b1', True),
+                        ('select a1, ARRAY_AGG(a3) group by a1', False), ('select top 2 a4, a2', False), ('select a1, UNNEST(a2)', False), ('select * except a1', False)]:
+        for pol in ('quoted', 'simple', 'quoted_rfc'):
+            cases.append({'q': {'items': ['star'], 'raw_text': text, 'sink': 'csv', 'policy': pol}, 'A': NC, 'B': NCB if use_b else None, 'py': text, 'raw': True, 'sink': 'csv', 'policy': pol})
     return cases
 
 
@@ -212,6 +259,14 @@ def run(res, tier, seed):
                                    'case_key': 'C06|js|' + qgen.render_query(c['q'], 'js') + json.dumps([c['A'], c['B']])})
             break
     res.count('js_cases', len(jcases))
+    jn = js_nested_csv()
+    res.evaluations += len(jn)
+    for o in jn:
+        res.nontrivial.add(('js-nested-csv', o['query']))
+        if o.get('mutated'):
+            res.violations.append({'property': 'C06', 'impl': 'js', 'why': 'rbql-js: a nested array of the caller table was modified when the output went to a CSV writer', 'query_js': o['query'],
+                                   'A_before': o['before'], 'A_after': o['after'], 'case_key': 'C06|js-nested-csv|' + o['query']})
+            break
     # (c) pandas, (d) sqlite file, (e) CSV files
     rect = [c for c in cases if c['A'] and len(set(len(r) for r in c['A'])) == 1 and all(isinstance(x, str) for r in c['A'] for x in r)
             and (c.get('B') is None or (c['B'] and all(len(r) == 2 and all(isinstance(x, str) for x in r) for r in c['B'])))][:300 if tier == 'quick' else 3000]
